@@ -33,7 +33,7 @@ SHAPES = {
 }
 FORMS_MONADIC = ['f:>P', 'f:>q', 'q∇f', 'P∇f']
 FORMS_JAC = ['q∂g', 'P∂g', '.jacobian(g;q)']
-FORMS_MULTI = ['loss:>[w b]', '[w b]∂gl', 'loss:>[w]']
+FORMS_MULTI = ['loss:>[w b]', '[w b]∂gl', 'loss:>[w]', 'loss:>[w w]', 'loss:>[b w b]', '[w w]∂gl']     # a name may be listed twice
 BEHAVIOURS = ['ok', 'raise', 'nonscalar', 'unknown']
 
 
@@ -99,7 +99,7 @@ def build(backend, form, shape, behaviour):
         setup = [f'q::{P}', 'g::{x;' + body + '}']
         return setup, form.replace('P', P), f'g({P})'
     # multi-parameter forms: w has the generated shape, b is a real scalar
-    if form == '[w b]∂gl':
+    if form in ('[w b]∂gl', '[w w]∂gl'):
         body = {'ok': 'probe(w*b)', 'raise': 'probe(w*b)', 'nonscalar': 'probe(w*b)', 'unknown': 'probe(w*nosuchname)'}[behaviour]
         if shape == 'real-matrix':
             body = ',/' + body
